@@ -146,6 +146,21 @@ def run(case, ctx, rng):
         else:
             ctx.eq('hmac==rfc2104', got[0], ref(name, K1, M), h=name, K=K1, M=M)
             ctx.eq('setkey-replaces-key', got[1], ref(name, K2, M), h=name, K1=K1, K2=K2, M=M)
+        # longer re-keying histories: setkey / mac in any order (several setkeys in a row, keys of equal and different lengths,
+        # key values built on the fly so that the caller keeps no reference to them)
+        mac = call(HMAC, make(name), K1)
+        if not is_exc(mac):
+            cur = K1; hist = []
+            lens = [case['kl1'], case['kl2'], case['kl1'], 0, B, B + 7]
+            for step in range(10):
+                if rng.random() < 0.55:
+                    kl = rng.choice(lens); seed = rng.getrandbits(32)
+                    call(lambda: mac.setkey(bytes((seed >> (8 * (i % 4)) ^ i) & 0xff for i in range(kl))))
+                    cur = bytes((seed >> (8 * (i % 4)) ^ i) & 0xff for i in range(kl)); hist.append('setkey(|K|=%d)' % kl)
+                else:
+                    Mx = rng.randbytes(rng.choice([0, 5, B]))
+                    ctx.eq('setkey-replaces-key', call(mac, Mx), ref(name, cur, Mx), h=name, K=cur, M=Mx, history=list(hist))
+                    hist.append('mac')
 
 def classify(case, fail):
     return None
